@@ -960,6 +960,39 @@ fn gen_read_collision(rng: &mut Rng) -> (Program, Vec<&'static str>) {
     (prog, vec!["read-collision"])
 }
 
+/// `NAME(..)` before the DEF of NAME has been executed IN THIS RUN is an array cell (0, or BAD SUBSCRIPT beyond 10); after it, a
+/// call.  Whatever an earlier run - or the static analysis of the file - has seen of the DEF plays no part
+fn gen_use_before_def(rng: &mut Rng) -> (Program, Vec<&'static str>) {
+    let arg = rng.pick(&[2.0, 10.0, 11.0, 50.0]);
+    let call = |a: f64| E::Call("FNA".into(), vec![E::Num(a)]);
+    let body = E::Bin("+", Box::new(E::Bin("*", Box::new(E::Var("X".into())), Box::new(E::Num(10.0)))), Box::new(E::Var("A".into())));
+    let mut prog: Program = vec![(10, vec![S::Let("A".into(), None, E::Num(7.0))])];
+    match rng.below(3) {
+        0 => {
+            prog.push((20, vec![S::Print(vec![(call(arg), ';')], false)]));
+            prog.push((30, vec![S::Def("FNA".into(), vec!["X".into()], body)]));
+            prog.push((40, vec![S::Print(vec![(call(arg), ';')], false)]));
+        }
+        1 => {
+            // the DEF stands behind an END: it never runs, the name stays an array
+            prog.push((20, vec![S::Let("FNA".into(), Some(vec![E::Num(2.0)]), E::Num(5.0))]));
+            prog.push((30, vec![S::Print(vec![(call(2.0), ';'), (call(arg), ';')], false)]));
+            prog.push((40, vec![S::End]));
+            prog.push((50, vec![S::Def("FNA".into(), vec!["X".into()], body)]));
+        }
+        _ => {
+            // reached by a jump on the second pass only
+            prog.push((20, vec![S::Let("C".into(), None, E::Bin("+", Box::new(E::Var("C".into())), Box::new(E::Num(1.0))))]));
+            prog.push((30, vec![S::Print(vec![(call(arg.min(10.0)), ';')], false)]));
+            prog.push((40, vec![S::If(E::Bin("=", Box::new(E::Var("C".into())), Box::new(E::Num(2.0))), Then::Line(70), None)]));
+            prog.push((50, vec![S::Def("FNA".into(), vec!["X".into()], body)]));
+            prog.push((60, vec![S::Goto(20)]));
+            prog.push((70, vec![S::Print(vec![(E::Str("done".into()), ';')], false)]));
+        }
+    }
+    (prog, vec!["use-before-def"])
+}
+
 /// STEP 0 and STEP -0 count as an upward step: the loop goes round while the variable is at most the limit, so a
 /// start above the limit leaves after one pass and a start at or below it goes round until the program jumps out
 fn gen_zero_step(rng: &mut Rng) -> (Program, Vec<&'static str>) {
@@ -1046,6 +1079,9 @@ pub fn gen_program(rng: &mut Rng, allow_else_resume: bool) -> (Program, Vec<&'st
     }
     if rng.chance(1, 25) {
         return gen_read_collision(rng);
+    }
+    if rng.chance(1, 25) {
+        return gen_use_before_def(rng);
     }
     let mut lines: Vec<Vec<S>> = vec![];
     let mut feats: Vec<&'static str> = vec![];
